@@ -275,7 +275,7 @@ PRelocInfo ReadRelocInfo(FILE* f) {
                             if (!Read8(f, &PEntry->Addr)) {
                                 break;
                             }
-                            if (!Read4(f, &StringPos)) {
+                            if (!Read4(f, &StringPos) || (StringPos >= StringLen)) {
                                 break;
                             }
                             PEntry->Name = PInfo->Strings + StringPos;
@@ -284,11 +284,17 @@ PRelocInfo ReadRelocInfo(FILE* f) {
                             }
                         }
 
+                        /* file ended amidst the relocation entries? */
+
+                        if (z != (LongInt)PInfo->RelocCount) {
+                            goto incomplete;
+                        }
+
                         /* read export entries */
 
                         for (z = 0, PExp = PInfo->ExportEntries; z < PInfo->ExportCount;
                              z++, PExp++) {
-                            if (!Read4(f, &StringPos)) {
+                            if (!Read4(f, &StringPos) || (StringPos >= StringLen)) {
                                 break;
                             }
                             PExp->Name = PInfo->Strings + StringPos;
@@ -303,7 +309,8 @@ PRelocInfo ReadRelocInfo(FILE* f) {
                         /* read strings */
 
                         if (z == PInfo->ExportCount) {
-                            OK = ((fread(PInfo->Strings, 1, StringLen, f)) == StringLen);
+                            OK = ((fread(PInfo->Strings, 1, StringLen, f)) == StringLen)
+                                 && (!StringLen || !PInfo->Strings[StringLen - 1]);
                         }
                     }
                 }
@@ -311,6 +318,7 @@ PRelocInfo ReadRelocInfo(FILE* f) {
         }
     }
 
+incomplete:
     if (!OK) {
         if (PInfo != NULL) {
             DestroyRelocInfo(PInfo);
